@@ -32,7 +32,7 @@ def string_trip_rule(ctx, R5, X=None):
             continue            # only [edi]: no override possible
         for sfx in ('b', 'd'):
             mn = fam + sfx
-            for segname in ('fs', 'cs', None):
+            for segname in ('es', 'cs', 'ss', 'fs', 'gs', None):      # every override (es is segment number 0: a truthiness test loses it)
                 pre = [SO.SEG_PREFIX[segname]] if segname else []
                 ops = SO.decoded_operands(X, mn, pre)
                 kept = SO.rendered_operand_count(X, mn, ops)
